@@ -22,7 +22,8 @@ comparison_repr = {
 def _unique_key(left, right, operator) -> str:
     left_key = getattr(left, "unique_key", "")
     right_key = getattr(right, "unique_key", "")
-    return f"{left_key} {operator} {right_key}"
+    # parenthesised, so that differently nested expressions get different keys
+    return f"({left_key} {operator} {right_key})"
 
 
 def replace_operators(expr: str) -> str:
@@ -68,7 +69,7 @@ def build_constant(constant) -> Callable:
         return constant
 
     decorated.__name__ = str(constant)
-    decorated.unique_key = str(constant)  # type: ignore[attr-defined]
+    decorated.unique_key = repr(constant)  # type: ignore[attr-defined]
     return decorated
 
 
